@@ -646,6 +646,9 @@ def run_threads(ctx: Ctx, cfg: dict, trace: bool = False) -> dict:
                         nst.start()
                         rec.up = tick()
                         rec.snap["up_listeners_open"] = [s.tag for s in listeners if not s.closed_flag]
+                        if nst.is_alive():
+                            lp = loops.get(rec.i)
+                            served.update(s.tag for s in listeners if not s.closed_flag and s.wrapped and s.loop is lp)
                         nst.join()
                         rec.snap["alive_after_join"] = nst.is_alive()
                         del inner
